@@ -121,7 +121,8 @@ theorem tie_incrementCountShape : incrementCountShape =
      "}", "call tp.history.Range", "}", "call tp.history.Load", "if ok {", "call atomic.AddUint64", "}",
      "else{", "call tp.history.Store", "}"] := by decide
 
-/-- `LimitContentSecurityHandler`: the method switch (DELETE, GET, POST, PUT), parse → verify → cryption or next; `default:` calls next -/
+/-- `LimitContentSecurityHandler`: the method switch (DELETE, GET, POST, PUT), parse → verify → cryption (any request
+with a body, `ContentLength != 0`, after fixes/C18-chunked-body.patch) or next; `default:` calls next -/
 theorem tie_contentSecurityShape : contentSecurityShape =
     ["if len(callbacks) == 0 {", "}", "func{", "func{", "switch r.Method {",
      "case http.MethodDelete, http.MethodGet, http.MethodPost, http.MethodPut:",
@@ -129,7 +130,7 @@ theorem tie_contentSecurityShape : contentSecurityShape =
      "call err.Error", "call logc.Errorf", "call executeCallbacks", "}", "else{",
      "call security.VerifySignature", "if code != httpx.CodeSignaturePass {", "call r.Context",
      "call r.Header.Get", "call logc.Errorf", "call executeCallbacks", "}", "else{",
-     "if r.ContentLength > 0 && header.Encrypted() {", "call ?",
+     "if r.ContentLength != 0 && header.Encrypted() {", "call ?",
      "call LimitCryptionHandler(limitBytes, header.Key)(next).ServeHTTP", "}", "else{", "call next.ServeHTTP",
      "}", "}", "}", "default:", "call next.ServeHTTP", "}", "}", "call http.HandlerFunc", "return", "}",
      "return"] := by decide
@@ -163,24 +164,76 @@ theorem tie_bodySignatureShape : bodySignatureShape =
     ["call iox.DupReadCloser", "store r.Body", "call sha256.New", "call io.Copy", "store r.Body",
      "call sha.Sum", "return"] := by decide
 
+/-- `computeBodySignature` does not branch at all — in particular not on `r.ContentLength`, `r.Body == nil` or the
+method: whatever `r.Body` yields is hashed (the model's `bodySignature` takes the body bytes only) -/
+def isBranch (st : String) : Bool :=
+  (st.toList.take 3 == "if ".toList) || (st.toList.take 7 == "switch ".toList) || st == "else{"
+
+theorem tie_bodySignature_unconditional : bodySignatureShape.all (fun st => !isBranch st) = true := by decide
+
+/-- it returns the lower-case hex text of the digest -/
+theorem tie_bodySignatureReturns : bodySignatureReturns = ["fmt.Sprintf(\"%x\", sha.Sum(nil))"] := by decide
+
+/-- `iox.DupReadCloser`: a tee of the body into a buffer, and that buffer — both readers yield the same bytes, one
+after the other (the hash reads the tee to its end first) -/
+theorem tie_dupReadCloser : dupReadCloserShape = ["call io.TeeReader", "call io.NopCloser", "call io.NopCloser", "return"]
+    ∧ dupReadCloserReturns = ["io.NopCloser(tee), io.NopCloser(&buf)"] := by decide
+
+/-- `ContentSecurityHeader.Encrypted` is `ContentType == CryptionType` (= 1, `tie_cryptionType`) -/
+theorem tie_encryptedReturns : encryptedReturns = ["h.ContentType == httpx.CryptionType"] := by decide
+
+/-- `httpx.ParseHeader`: fields separated by `;`, empty ones skipped, those that do not split into two at the first
+`=` skipped, assignment into the map in order (the last one wins) -/
+theorem tie_parseHeaderShape : parseHeaderShape =
+    ["range fields {", "if len(field) == 0 {", "continue", "}", "if len(kv) != tokensInAttribute {", "continue", "}",
+     "mapset ret", "}", "return"] ∧ headerSeparator = ";" ∧ tokensInAttribute = 2 := by decide
+
+/-- `TokenParser.loadCount`: the stored counter, 0 for an unknown secret -/
+theorem tie_loadCountShape : loadCountShape = ["call tp.history.Load", "if ok {", "return", "}", "return"] := by decide
+
+/-- what `getPathQuery` returns on its three paths: the request's own path/query twice, the header's once -/
+theorem tie_getPathQueryReturns : getPathQueryReturns =
+    ["r.URL.Path, r.URL.RawQuery", "r.URL.Path, r.URL.RawQuery", "uri.Path, uri.RawQuery"] := by decide
+
 /-- `getPathQuery`: header empty or unparsable ⇒ the request's own path/query -/
 theorem tie_getPathQueryShape : getPathQueryShape =
     ["call r.Header.Get", "if len(requestUri) == 0 {", "return", "}", "call url.Parse", "if err != nil {",
      "return", "}", "return"] := by decide
 
-/-- `LimitCryptionHandler`: deferred flush; `ContentLength <= 0` ⇒ next; decrypt error ⇒ 400 and return; next -/
+/-- `LimitCryptionHandler` (after fixes/C18-chunked-body.patch): deferred flush; `ContentLength == 0` ⇒ next;
+decrypt error ⇒ 400 and return; next -/
 theorem tie_cryptionShape : cryptionShape =
-    ["func{", "func{", "defer{", "call r.Context", "call cw.flush", "}", "if r.ContentLength <= 0 {",
+    ["func{", "func{", "defer{", "call r.Context", "call cw.flush", "}", "if r.ContentLength == 0 {",
      "call next.ServeHTTP", "return", "}", "call decryptBody", "if err != nil {", "call w.WriteHeader",
      "return", "}", "call next.ServeHTTP", "}", "call http.HandlerFunc", "return", "}", "return"] := by decide
 
-/-- `decryptBody`: limit test, read, base64, EcbDecrypt, replace body -/
+/-- `decryptBody` (after the fix): limit test; a declared length is read in full, an unknown one up to the limit
+(`maxBytes` without one) with a probe for more; nothing read ⇒ nothing to decrypt; base64, EcbDecrypt, replace body -/
 theorem tie_decryptBodyShape : decryptBodyShape =
     ["if limitBytes > 0 && r.ContentLength > limitBytes {", "return", "}", "if r.ContentLength > 0 {",
-     "call io.ReadFull", "}", "else{", "call io.LimitReader", "call io.ReadAll", "}", "if err != nil {",
-     "return", "}", "call base64.StdEncoding.DecodeString", "if err != nil {", "return", "}",
+     "call io.ReadFull", "}", "else{", "if max <= 0 {", "}", "call io.LimitReader", "call io.ReadAll",
+     "if err == nil && int64(len(content)) == max {", "call io.ReadFull", "if n > 0 {", "}", "}", "}",
+     "if err != nil {", "return", "}", "if len(content) == 0 {", "return", "}",
+     "call base64.StdEncoding.DecodeString", "if err != nil {", "return", "}",
      "call codec.EcbDecrypt", "if err != nil {", "return", "}", "call buf.Write", "call io.NopCloser",
      "store r.Body", "return"] := by decide
+
+/-- the three framing tests are the model's: `cl = 0` no body, `cl > 0` declared length, otherwise unknown length
+with the cap `if limit > 0 then limit else maxBytes` -/
+theorem tie_noBodyGate (cl : Int) : noBodyGate cl = decide (cl = 0) := rfl
+
+theorem tie_declaredLength (cl : Int) : declaredLength cl = decide (cl > 0) := rfl
+
+theorem tie_noLimitConfigured (limit : Int) :
+    (if noLimitConfigured limit then GoZero.C18.maxBytes else limit) = (if limit > 0 then limit else GoZero.C18.maxBytes) := by
+  unfold noLimitConfigured
+  by_cases h : limit > 0
+  · have : ¬ limit ≤ 0 := by omega
+    simp [h, this]
+  · have : limit ≤ 0 := by omega
+    simp [h, this]
+
+theorem tie_maxBytes_model : Extracted.C18.maxBytes = GoZero.C18.maxBytes := by decide
 
 /-- `flush`: nothing for an empty buffer; EcbEncrypt error ⇒ 500; base64; write -/
 theorem tie_flushShape : flushShape =
